@@ -16,6 +16,7 @@
    oracle: big.Int add/sub/mul/QuoRem/And/Or/Xor/Not/Lsh/Rsh/Cmp/Sign are the Z
    operations (QuoRem = truncated division Z.quot / Z.rem). *)
 From Coq Require Import ZArith Bool List.
+From Coq Require Floats.SpecFloat.
 From SV Require Import Common.GoInt.
 Import ListNotations.
 Open Scope Z_scope.
@@ -51,6 +52,12 @@ Definition fallback_impl : int_impl := {|
   makeSmallInt := fun z => z;
   makeBigInt := fun z => z
 |}.
+
+(* big.Int.Rsh: arithmetic shift = Z.shiftr.  Written so that it evaluates in
+   time independent of the count (Z.shiftr iterates n times); proved equal to
+   Z.shiftr in ProofsInt.big_rsh_shiftr. *)
+Definition big_rsh (x n : Z) : Z :=
+  if Z.log2 (Z.abs x) <? n then (if x <? 0 then -1 else 0) else Z.shiftr x n.
 
 Definition is_some {A} (o : option A) : bool := match o with Some _ => true | None => false end.
 
@@ -130,7 +137,7 @@ Section Ops.
 
   (* y : uint *)
   Definition Lsh (x : t) (y : Z) : t := MakeBigInt (Z.shiftl (bigInt x) y).
-  Definition Rsh (x : t) (y : Z) : t := MakeBigInt (Z.shiftr (bigInt x) y).
+  Definition Rsh (x : t) (y : Z) : t := MakeBigInt (big_rsh (bigInt x) y).
 
   Definition Sign (x : t) : Z :=
     let '(xs, xb) := get I x in
@@ -221,3 +228,297 @@ Section Ops.
   Definition Compare (c : cmpop) (x y : t) : bool := threeway c (Cmp x y).
 End Ops.
 
+
+(* =====================================================================
+   range, enumerate (starlark/library.go) -- Go `int` is int64, `uint` is uint64
+   ===================================================================== *)
+
+Inductive res (A : Type) := Ok (a : A) | Err.
+Arguments Ok {A} a. Arguments Err {A}.
+
+Record rangeValue := { r_start : Z; r_stop : Z; r_step : Z; r_len : Z }.
+
+(* func rangeLen(start, stop, step int) int   (None = panic "rangeLen: zero step")
+     case step > 0: if stop > start { return int(uint(stop-1-start)/uint(step) + 1) }
+     case step < 0: if start > stop { return int(uint(start-1-stop)/uint(-step) + 1) } *)
+Definition rangeLen (start stop step : Z) : option Z :=
+  if 0 <? step then
+    if start <? stop
+    then Some (wrap64 (wrapu64 (wrapu64 (wrap64 (wrap64 (stop - 1) - start)) / wrapu64 step + 1)))
+    else Some 0
+  else if step <? 0 then
+    if stop <? start
+    then Some (wrap64 (wrapu64 (wrapu64 (wrap64 (wrap64 (start - 1) - stop)) / wrapu64 (wrap64 (- step)) + 1)))
+    else Some 0
+  else None.
+
+(* unpacking a Starlark int into a Go int: AsInt -> Int64(), error when it does not fit *)
+Definition unpack_int (z : Z) : res Z := if in_int64 z then Ok z else Err.
+
+(* func range_(...): 1 to 3 positional int arguments *)
+Definition range_ (args : list Z) : res rangeValue :=
+  let mk (a b c : Z) :=
+    match unpack_int a, unpack_int b, unpack_int c with
+    | Ok start, Ok stop, Ok step =>
+        if step =? 0 then Err
+        else match rangeLen start stop step with
+             | Some n => if n <? 0 then Err else Ok {| r_start := start; r_stop := stop; r_step := step; r_len := n |}
+             | None => Err
+             end
+    | _, _, _ => Err
+    end in
+  match args with
+  | [a] => mk 0 a 1
+  | [a; b] => mk a b 1
+  | [a; b; c] => mk a b c
+  | _ => Err
+  end.
+
+(* func (r rangeValue) Index(i int) Value { return MakeInt(r.start + i*r.step) } *)
+Definition range_index (r : rangeValue) (i : Z) : Z := wrap64 (r_start r + wrap64 (i * r_step r)).
+
+(* getIndex on an Indexable: i, err := AsInt32(y); if i < 0 { i += n }; if i < 0 || i >= n { error } *)
+Definition range_getIndex (r : rangeValue) (y : Z) : res Z :=
+  if negb (in_int32 y) then Err
+  else let n := r_len r in
+       let i := if y <? 0 then wrap64 (y + n) else y in
+       if (i <? 0) || (n <=? i) then Err else Ok (range_index r i).
+
+(* rangeIterator.Next: position i -> Some (element, next position) *)
+Definition range_next (r : rangeValue) (i : Z) : option (Z * Z) :=
+  if i <? r_len r then Some (range_index r i, wrap64 (i + 1)) else None.
+
+Fixpoint range_iterate (fuel : nat) (r : rangeValue) (i : Z) : list Z :=
+  match fuel with
+  | O => []
+  | S k => match range_next r i with Some (x, j) => x :: range_iterate k r j | None => [] end
+  end.
+
+(* func rangeEqual(x, y rangeValue) bool *)
+Definition rangeEqual (x y : rangeValue) : bool :=
+  if negb (r_len x =? r_len y) then false
+  else if r_len x =? 0 then true
+  else if negb (r_start x =? r_start y) then false
+  else (r_len x =? 1) || (r_step x =? r_step y).
+
+Section RangeInt.
+  Variable I : int_impl.
+
+  (* func (r rangeValue) contains(x Int) bool -- after the fix: Int arithmetic
+       delta := x.Sub(MakeInt(r.start)); step := MakeInt(r.step)
+       if delta.Mod(step).Sign() != 0 { return false }
+       quo := delta.Div(step)
+       return quo.Sign() >= 0 && quo.Sub(MakeInt(r.len)).Sign() < 0 *)
+  Definition range_contains (r : rangeValue) (x : T I) : bool :=
+    let delta := Sub I x (MakeInt64 I (r_start r)) in
+    let step := MakeInt64 I (r_step r) in
+    if negb (Sign I (Mod I delta step) =? 0) then false
+    else let quo := Div I delta step in
+         (0 <=? Sign I quo) && (Sign I (Sub I quo (MakeInt64 I (r_len r))) <? 0).
+
+  (* enumerate: pair[0] = MakeInt(start).Add(MakeInt(i)), i = 0, 1, ... (after the fix) *)
+  Definition enumerate_index (start i : Z) : T I := Add I (MakeInt64 I start) (MakeInt64 I i).
+End RangeInt.
+
+(* enumerate(iterable, start): start is unpacked into a Go int *)
+Definition enumerate_indices (I : int_impl) (start : Z) (n : nat) : res (list Z) :=
+  match unpack_int start with
+  | Ok s => Ok (map (fun i => value I (enumerate_index I s (Z.of_nat i))) (seq 0 n))
+  | Err => Err
+  end.
+
+(* ---------- slicing: eval.go slice() index normalisation, then rangeValue.Slice *)
+
+(* asIndex: None/absent keeps the default; otherwise AsInt32, negative + len *)
+Definition asIndex (v : option Z) (len dflt : Z) : res Z :=
+  match v with
+  | None => Ok dflt
+  | Some z => if negb (in_int32 z) then Err else Ok (if z <? 0 then wrap64 (z + len) else z)
+  end.
+
+Definition clamp (x lo hi : Z) : Z := if x <? lo then lo else if hi <? x then hi else x.
+
+(* returns (start, end, step) passed to Sliceable.Slice *)
+Definition slice_indices (n : Z) (lo hi st : option Z) : res (Z * Z * Z) :=
+  match (match st with None => Ok 1 | Some s => if negb (in_int32 s) then Err else if s =? 0 then Err else Ok s end) with
+  | Err => Err
+  | Ok step =>
+      if 0 <? step then
+        match asIndex lo n 0, asIndex hi n n with
+        | Ok s0, Ok e0 =>
+            let s := clamp s0 0 n in let e := clamp e0 0 n in
+            Ok (s, (if e <? s then s else e), step)
+        | _, _ => Err
+        end
+      else
+        match asIndex lo n (wrap64 (n - 1)), asIndex hi n (-1) with
+        | Ok s0, Ok e0 =>
+            let s := if n <=? s0 then wrap64 (n - 1) else s0 in
+            let e := if e0 <? -1 then -1 else e0 in
+            Ok ((if s <? e then e else s), e, step)
+        | _, _ => Err
+        end
+  end.
+
+(* func (r rangeValue) Slice(start, end, step int) Value   (None = panic in rangeLen) *)
+Definition range_slice (r : rangeValue) (start end_ step : Z) : option rangeValue :=
+  let newStart := wrap64 (r_start r + wrap64 (r_step r * start)) in
+  let newStop := wrap64 (r_start r + wrap64 (r_step r * end_)) in
+  let newStep := wrap64 (r_step r * step) in
+  match rangeLen newStart newStop newStep with
+  | Some n => Some {| r_start := newStart; r_stop := newStop; r_step := newStep; r_len := n |}
+  | None => None
+  end.
+
+(* =====================================================================
+   floats (value.go Float, int.go conversions, lib/math floor/ceil)
+
+   A float64 is a Coq.Floats.SpecFloat.spec_float (the proof-free datatype that
+   underlies Flocq's binary_float: zero / infinity / NaN / finite sign mantissa
+   exponent, value = +-m * 2^e) restricted by valid_binary 53 1024.  Hardware
+   operations are oracles: comparison and float->int64 conversion of finite
+   values are exact on the rational value, int->float conversion and + - * /
+   are SpecFloat's round-to-nearest-even operations.
+   ===================================================================== *)
+Import Floats.SpecFloat.
+Notation float := spec_float.
+
+Definition valid_float (f : float) : bool := valid_binary 53 1024 f.
+
+Definition float_of_bits (b : Z) : float :=
+  let s := Z.testbit b 63 in
+  let e := (b / 4503599627370496) mod 2048 in
+  let m := b mod 4503599627370496 in
+  if e =? 2047 then (if m =? 0 then S754_infinity s else S754_nan)
+  else if e =? 0 then match m with Zpos p => S754_finite s p (-1074) | _ => S754_zero s end
+  else match m + 4503599627370496 with Zpos p => S754_finite s p (e - 1075) | _ => S754_nan end.
+
+(* func (f Float) rational() *big.Rat = new(big.Rat).SetFloat64(f): the exact value
+   num/den with den a positive power of two; None (nil) when f is not finite *)
+Definition rational (f : float) : option (Z * Z) :=
+  match f with
+  | S754_zero _ => Some (0, 1)
+  | S754_finite s m e =>
+      let n := if s then Zneg m else Zpos m in
+      if 0 <=? e then Some (n * 2 ^ e, 1) else Some (n, 2 ^ (- e))
+  | _ => None
+  end.
+
+Inductive num := NInt (z : Z) | NFloat (f : float).
+
+Section FloatInt.
+  Variable I : int_impl.
+
+  (* func finiteFloatToInt(f Float) Int, on the exact value n/d of f:
+       if math.MinInt64 <= f && f < math.MaxInt64+1 { return MakeInt64(int64(f)) }   -- hardware truncation
+       rat := f.rational(); return MakeBigInt(new(big.Int).Div(rat.Num(), rat.Denom()))  -- Euclidean division *)
+  Definition finiteFloatToInt_q (n d : Z) : T I :=
+    if (min_int64 * d <=? n) && (n <? 9223372036854775808 * d)
+    then MakeInt64 I (wrap64 (Z.quot n d))
+    else MakeBigInt I (n / d).
+
+  (* None = panic(f): non-finite *)
+  Definition finiteFloatToInt (f : float) : option (T I) :=
+    match rational f with Some (n, d) => Some (finiteFloatToInt_q n d) | None => None end.
+
+  (* func NumberToInt(x Value) (Int, error) *)
+  Definition NumberToInt (x : num) : res (T I) :=
+    match x with
+    | NInt z => Ok (MakeBigInt I z)
+    | NFloat f =>
+        match f with
+        | S754_infinity _ | S754_nan => Err
+        | _ => match finiteFloatToInt f with Some i => Ok i | None => Err end
+        end
+    end.
+
+  (* lib/math floor / ceil: NumberToInt(Float(math.Floor(f))); math.Floor / math.Ceil
+     return the float whose value is the floor / ceiling of n/d (oracle) *)
+  Definition math_floor (x : num) : res (T I) :=
+    match x with
+    | NInt z => Ok (MakeBigInt I z)
+    | NFloat f => match rational f with Some (n, d) => Ok (finiteFloatToInt_q (n / d) 1) | None => Err end
+    end.
+  Definition math_ceil (x : num) : res (T I) :=
+    match x with
+    | NInt z => Ok (MakeBigInt I z)
+    | NFloat f => match rational f with Some (n, d) => Ok (finiteFloatToInt_q (- ((- n) / d)) 1) | None => Err end
+    end.
+
+  (* func (i Int) Float() Float *)
+  Definition Z_to_float (z : Z) : float := binary_normalize 53 1024 z 0 false.
+  Definition Int_Float (i : T I) : float :=
+    let '(is_, ib) := get I i in
+    match ib with
+    | Some b =>
+        if (0 <=? b) && (b <=? max_uint64) then Z_to_float b        (* Float(iBig.Uint64()) *)
+        else if in_int64 b then Z_to_float b                          (* Float(iBig.Int64()) *)
+        else if 1024 <? bitlen b then S754_infinity (b <? 0)          (* math.Inf(iBig.Sign()) *)
+        else Z_to_float b                                             (* big.Float.SetInt(iBig).Float64() *)
+    | None => Z_to_float is_
+    end.
+
+  (* func (i Int) finiteFloat() (Float, error) *)
+  Definition finiteFloat (i : T I) : res float :=
+    match Int_Float i with S754_infinity _ => Err | f => Ok f end.
+
+  (* CompareDepth, Int vs Float and Float vs Int: the three-way value.
+     Rat.Cmp(a/b, c/d) with b, d > 0 is the sign of a*d - c*b (oracle). *)
+  Definition rat_cmp (a b c d : Z) : Z := cmp_to_int (Z.compare (a * d) (c * b)).
+
+  Definition cmp_int_float (x : T I) (y : float) : Z :=
+    match y with
+    | S754_nan => -1
+    | S754_infinity s => if s then 1 else -1
+    | _ => match rational y with Some (n, d) => rat_cmp (bigInt I x) 1 n d | None => 0 end
+    end.
+
+  Definition cmp_float_int (x : float) (y : T I) : Z :=
+    match x with
+    | S754_nan => 1
+    | S754_infinity s => if s then -1 else 1
+    | _ => match rational x with Some (n, d) => rat_cmp n d (bigInt I y) 1 | None => 0 end
+    end.
+
+  Definition Compare_if (c : cmpop) (x : T I) (y : float) : bool := threeway c (cmp_int_float x y).
+  Definition Compare_fi (c : cmpop) (x : float) (y : T I) : bool := threeway c (cmp_float_int x y).
+
+  (* func (r rangeValue) Has(y Value) (bool, error) -- after the fix:
+       i, err := NumberToInt(y); if err != nil { error }
+       if f, ok := y.(Float); ok && f != floor(f) { return false, nil }
+       return r.contains(i), nil *)
+  Definition range_has (r : rangeValue) (y : num) : res bool :=
+    match NumberToInt y with
+    | Err => Err
+    | Ok i =>
+        match y with
+        | NFloat f =>
+            match rational f with
+            | Some (n, d) => if negb (n mod d =? 0) then Ok false else Ok (range_contains I r i)
+            | None => Err
+            end
+        | NInt _ => Ok (range_contains I r i)
+        end
+    end.
+
+  (* mixed arithmetic int (op) float of starlark.Binary for + - * / : the int is
+     converted with finiteFloat (error when infinite), then the hardware operation *)
+  Inductive flop := FADD | FSUB | FMUL | FDIV.
+  Definition float_is_zero (f : float) : bool := match f with S754_zero _ => true | _ => false end.
+  Definition float_binary (o : flop) (a b : float) : res float :=
+    match o with
+    | FADD => Ok (SFadd 53 1024 a b)
+    | FSUB => Ok (SFsub 53 1024 a b)
+    | FMUL => Ok (SFmul 53 1024 a b)
+    | FDIV => if float_is_zero b then Err else Ok (SFdiv 53 1024 a b)
+    end.
+  Definition Binary_if (o : flop) (x : T I) (y : float) : res float :=
+    match finiteFloat x with Ok xf => float_binary o xf y | Err => Err end.
+  Definition Binary_fi (o : flop) (x : float) (y : T I) : res float :=
+    match finiteFloat y with Ok yf => float_binary o x yf | Err => Err end.
+  Definition Binary_ii_div (x y : T I) : res float :=
+    match finiteFloat x with
+    | Ok xf => match finiteFloat y with Ok yf => float_binary FDIV xf yf | Err => Err end
+    | Err => Err
+    end.
+End FloatInt.
